@@ -211,6 +211,8 @@ def tabular(ctx) -> None:
                     axis = inner.args[1].value
                 takes = core.src(inner.args[0]) if inner.args else None
                 facts = {'receiver': recv, 'axis': axis, 'constructor': ctor}
+                extra = sorted(k.arg for k in inner.keywords if k.arg not in ('axis',)) + (['positional>2'] if len(inner.args) > 2 else [])
+                ctx.check(not extra, 'C15.take', fn, f'Dense.{mname} uses numpy take with its default out-of-range behaviour (raise) - like the pandas based Frame and plain matrix indexing (extra arguments: {extra})', inner, key=f'Dense.{mname}:take-mode')
                 if axis in (0, 1) and recv.replace('.T', '') == 'self._rows' and takes == 'indices':
                     effective = axis ^ (1 if transposed else 0)
                     ok = effective == want_axis and ctor == ('from_columns' if transposed else 'from_rows')
@@ -280,7 +282,11 @@ def kind_cast(ctx) -> None:
             ok, why = oty == ty, f'conversion of {owner.qual} (native type {oty})'
             if ok and ty in NATIVE_CTOR:
                 r = [x for x in core.walk_local(node) if isinstance(x, ast.Return)]
-                ok = len(r) == 1 and isinstance(r[0].value, ast.Call) and (core.dotted(r[0].value.func) or '') in NATIVE_CTOR[ty]
+                vparam = node.args.args[1].arg if len(node.args.args) > 1 else 'value'
+                body = [x for x in node.body if not (isinstance(x, ast.Expr) and isinstance(x.value, ast.Constant))]
+                # the native constructor is applied to the value as given - no intermediate conversion (through float: precision
+                # loss above 2**53 and silent truncation of '3.9') and nothing else happens in the conversion
+                ok = len(r) == 1 and len(body) == 1 and isinstance(r[0].value, ast.Call) and (core.dotted(r[0].value.func) or '') in NATIVE_CTOR[ty] and [core.src(a) for a in r[0].value.args] == [vparam] and not r[0].value.keywords
                 why += f' returning `{core.src(r[0].value) if r else None}`'
         ctx.check(ok, 'C15.kind-cast', ci.ref, f'{ci.qual} (native type {ty}) converts through the {why}: the result is of the declared kind', key=f'{ci.qual}:cast', loc=f'{ci.module.relpath}:{node.lineno}')
     ctx.floor('C15.kind-cast', n, 6)
